@@ -25,8 +25,8 @@ mut("C03", "r3-put-precheck-ignored", "database/interface.go",
     "if err != nil && !errors.Is(err, ErrNotFound) && !errors.Is(err, ErrPermissionDenied) {\n\t\t\treturn err\n\t\t}\n\t} else {\n\t\tdb, err = getController(r.DatabaseName())\n\t\tif err != nil {\n\t\t\treturn err\n\t\t}\n\t}\n\n\t// Check if database is read only.\n\tif db.ReadOnly() {\n\t\treturn ErrReadOnly\n\t}\n\n\tr.Lock()\n\ti.options.Apply(r)",
     "C03-R3|database.(*Interface).Put /")
 mut("C03", "r3-delete-bypass", "database/interface.go",
-    "\ti.updateCache(r, false, true, 0)\n\n\treturn db.Put(r)",
-    "\ti.updateCache(r, false, true, 0)\n\tif r2, err2 := db.Get(key); err2 == nil {\n\t\tr = r2\n\t}\n\treturn db.Put(r)", "C03-R3|Delete / call Controller.Put #1 / record provenance")
+    "\ti.updateCache(r, false, true, 0)\n\n\treturn putChanged(db, r, before)",
+    "\ti.updateCache(r, false, true, 0)\n\tif r2, err2 := db.Get(key); err2 == nil {\n\t\tr = r2\n\t}\n\treturn putChanged(db, r, before)", "C03-R3|Delete / call Controller.Put #1 / record provenance")
 mut("C03", "r3-query-swapped", "database/interface.go",
     "return db.Query(q, i.options.Local, i.options.Internal)", "return db.Query(q, i.options.Internal, i.options.Local)", "C03-R3|database.(*Interface).Query")
 mut("C03", "r3-putmany-no-check", "database/interface.go",
@@ -672,7 +672,7 @@ mut("C20", "r1-tracer-ignores-global-level", "log/trace.go",
 mut("C13", "r8-delete-error-dropped", "api/database.go",
     "\terr := api.db.Delete(key)\n\tif err != nil {\n\t\tapi.send(opID, dbMsgTypeError, err.Error(), nil)\n\t\treturn\n\t}\n\tapi.send(opID, dbMsgTypeSuccess", "\t_ = api.db.Delete(key)\n\tapi.send(opID, dbMsgTypeSuccess", "C13-R8|api.(*DatabaseAPI).handleDelete / error of database.Interface.Delete")
 mut("C02", "r10-delete-put-error-dropped", "database/interface.go",
-    "\ti.updateCache(r, false, true, 0)\n\n\treturn db.Put(r)", "\ti.updateCache(r, false, true, 0)\n\n\t_ = db.Put(r)\n\treturn nil", "C02-R10|database.(*Interface).Delete / error of database.Controller.Put")
+    "\ti.updateCache(r, false, true, 0)\n\n\treturn putChanged(db, r, before)", "\ti.updateCache(r, false, true, 0)\n\n\t_ = putChanged(db, r, before)\n\treturn nil", "C02-R15|database.(*Interface).Delete / error")
 mut("C17", "r5-createatomic-rename-error-dropped", "utils/atomic.go",
     "\tif err := tmpFile.CloseAtomicallyReplace(); err != nil {\n\t\treturn fmt.Errorf(\"failed to rename temp file to %q\", dest)\n\t}", "\t_ = tmpFile.CloseAtomicallyReplace()", "C17-R5|utils.CreateAtomic / error of utils/renameio.PendingFile.CloseAtomicallyReplace")
 mut("C04", "r8-loadconfig-parse-error-dropped", "config/persistence.go",
@@ -1137,6 +1137,10 @@ mut("C11", "r10-two-quotes-for-short-tokens", "database/query/parser.go",
     "C11-R10|database/query.escapeString", comment="the empty-token form returned for a non-empty token")
 
 mut("C02", "r24-delete-without-record-lock", "database/interface.go",
-    "\tr.Lock()\n\tdefer r.Unlock()\n\n\ti.options.Apply(r)\n\tr.Meta().Delete()\n", "\ti.options.Apply(r)\n\tr.Meta().Delete()\n",
+    "\tr.Lock()\n\tdefer r.Unlock()\n\n\tbefore := *r.Meta()\n\ti.options.Apply(r)\n\tr.Meta().Delete()\n", "\tbefore := *r.Meta()\n\ti.options.Apply(r)\n\tr.Meta().Delete()\n",
     "C02-R24|database.(*Interface).Delete", comment="reverts fix a9dfa07")
 clone("C02-r24-delete-without-record-lock", "C14", "r15-delete-without-record-lock", "C14-R15|database.(*Interface).Delete", "reverts fix a9dfa07")
+
+mut("C14", "r16-refused-write-keeps-meta-change", "database/interface.go",
+    "\terr := db.Put(r)\n\tif err != nil {\n\t\t*r.Meta() = before\n\t}\n\treturn err\n", "\treturn db.Put(r)\n",
+    "C14-R16|database.(*Interface).Delete", comment="reverts fix 433069e")
